@@ -206,6 +206,10 @@ def judge(case, hs):
                     if res != 0 or w["nctx_after"] != 0 or w["state_after"] != 0:
                         V.append(Violation("S6", "S6:abort-on-halted", "abort on a halted VM (state %d, %d scripts) returned %s and left state %d with %d scripts"
                                            % (w["state_before"], w["nctx_before"], RES_NAME.get(res, res), w["state_after"], w["nctx_after"])))
+        # ---- S2 (nothing loaded): an executing action on a VM without scripts has nothing to do; the VM is empty before and after
+        if name in BLOCKING and res != 1 and not overl and w["nctx_before"] == 0 and w["state_before"] == 0 and not others_hold(th, b, e, strict=False):
+            if w["state_after"] != 0 or res not in (-1, 0):
+                V.append(Violation("S2", "S2:empty-vm:%s" % name, "%s on a VM without scripts returned %s and left state %d" % (name, RES_NAME.get(res, res), w["state_after"])))
         # ---- S2 (idle state) when nothing else is in flight at the end of this action
         if not [x for x in ws if x is not w and x["b"] < e < x["e"]]:
             if w["state_after"] not in (0, 1, 3):
@@ -256,6 +260,23 @@ def judge(case, hs):
                     if not nxt_actions:
                         V.append(Violation("S5", "S5:not-empty-after-stop", "%s returned ok; the executor then returned %s leaving state %d and %d scripts"
                                            % (name, RES_NAME.get(endw[0]["res"], endw[0]["res"]), endw[0]["state_after"], endw[0]["nctx_after"])))
+    # ---- S6 (continued): what an abort on a halted VM discarded never executes again - until something new is loaded,
+    # no action finds an instruction to run
+    loads = [e[0] for e in ev if e[1] == "load"]
+    for w in ws:
+        if w["name"] != "abort" or w["res"] != 0 or w["state_before"] not in (1, 3) or w["state_after"] != 0 or w["nctx_after"] != 0:
+            continue
+        if [x for x in ws if x is not w and x["b"] <= w["e"] and x["e"] >= w["b"]] or others_hold(w["thread"], w["b"], w["e"], strict=False):
+            continue
+        nxt_load = min([l for l in loads if l > w["e"]] or [10**12])
+        for w2 in ws:
+            if w2["b"] <= w["e"] or w2["b"] >= nxt_load:
+                continue
+            ran = [x for x in instr_events if w2["b"] < x[0] < w2["e"]]
+            if ran:
+                V.append(Violation("S6", "S6:discarded-script-executes:" + w2["name"], "abort on a halted VM returned ok and left the VM empty; the following %s (result %s) then executed %d instruction(s) of the discarded script, first `%s`"
+                                   % (w2["name"], RES_NAME.get(w2["res"], w2["res"]), len(ran), ran[0][4] if len(ran[0]) > 4 else "?")))
+                break
     # ---- S7: still usable
     final = [e for e in ev if e[1] == "t" and e[4].startswith("[99,")]
     if len(final) != 2:
